@@ -474,6 +474,8 @@ func c12Replay(r *Run, ops []map[string]interface{}) {
 	}
 	obs := c12RunAll(r, l, 1)
 	for i := range l {
+		delete(ops[i], "hint")
+		c12Hint(ops[i], obs[i])
 		r.Emit(ops[i], obs[i])
 	}
 }
